@@ -44,6 +44,10 @@ type Runner struct {
 	Tags     map[string]int
 	Watchdog time.Duration
 	idleAdds map[int]bool
+	racing   bool // oracle-only section: completions/evictions race with Reads in flight
+	fuseH    map[int]*fuseHandle
+	fuseR    map[int]*fuseRead
+	finPend  []uint32
 	lastSnap []tor.VerifRequestedPiece
 }
 
@@ -65,6 +69,7 @@ type RState struct {
 	closed    bool
 	pend      *pendRead
 	waitCh    <-chan struct{} // the channel the parked Read waits on
+	parked    bool            // the pending Read is known to be parked in its select
 }
 
 type readRes struct {
@@ -197,6 +202,7 @@ func (ru *Runner) settle(rs *RState) string {
 			if isClosed(ch) || ru.dead || rs.cancelled {
 				continue // it will go on
 			}
+			rs.parked = true
 			ru.checkBlocked(rs)
 			return "block " + ru.rdState(rs)
 		case <-deadline.C:
@@ -244,6 +250,7 @@ func (ru *Runner) checkBlocked(rs *RState) {
 func (ru *Runner) finishRead(rs *RState, x readRes) string {
 	p := rs.pend
 	rs.pend = nil
+	rs.parked = false
 	if x.panic != "" {
 		ru.violate("panic:read", x.panic)
 		rs.closed = true
@@ -261,6 +268,18 @@ func (ru *Runner) finishRead(rs *RState, x readRes) string {
 		want := ru.S.Content[rs.offset+rs.pos : rs.offset+rs.pos+int64(k)]
 		if string(want) != string(p.buf[:k]) {
 			ru.violate("bytes:mismatch", fmt.Sprintf("reader(%d,%d) at %d: %d bytes differ from the torrent's content", rs.offset, rs.length, rs.pos, k))
+		}
+	}
+	if k > 0 && !ru.racing {
+		// every byte returned lies in a piece whose hash has been verified and that is
+		// in memory now, whether or not the bytes happen to be right
+		first := (rs.offset + rs.pos) / int64(ru.S.PS)
+		last := (rs.offset + rs.pos + int64(k) - 1) / int64(ru.S.PS)
+		for i := first; i <= last; i++ {
+			if int(i) >= len(ru.complete) || !ru.complete[i] {
+				ru.violate("bytes:unverified-piece", fmt.Sprintf("reader(%d,%d) at %d: the %d bytes returned reach into piece %d, which is not verified", rs.offset, rs.length, rs.pos, k, i))
+				break
+			}
 		}
 	}
 	for _, b := range p.buf[k:] {
@@ -511,6 +530,7 @@ func (ru *Runner) Close() {
 	if ru.S == nil {
 		return
 	}
+	ru.closeFuse()
 	// reads still blocked must fail promptly when the torrent goes away
 	ru.S.Kill()
 	ru.dead = true
@@ -534,6 +554,13 @@ func (ru *Runner) Close() {
 // Exec executes one op line.  Returns false for a line it does not know.
 func (ru *Runner) Exec(op string) bool {
 	ws := strings.Fields(op)
+	if len(ws) >= 2 && ws[0] == "rdx" {
+		ru.emit(op, "x")
+		if ru.S != nil {
+			ru.execX(ws)
+		}
+		return true
+	}
 	if len(ws) < 2 || ws[0] != "rd" {
 		return false
 	}
@@ -738,6 +765,17 @@ func (ru *Runner) Exec(op string) bool {
 			o = "done=1"
 		}
 		ru.finishCompletion(op, o, int(i), done)
+	case "garbage":
+		if len(ws) != 3 {
+			return bad()
+		}
+		i, ok := atoi(ws[2])
+		if !ok || i < 0 || int(i) >= ru.S.N {
+			return bad()
+		}
+		ru.S.Garbage(uint32(i), i%2 == 0)
+		ru.tag("garbage")
+		ru.finish(op, "ok")
 	case "evict":
 		if len(ws) != 3 {
 			return bad()
